@@ -142,27 +142,28 @@ def print_assumptions(prop_vfile):
 ALLOWED_AXIOMS = set()  # none needed so far; std-lib axioms would be named here and in DESIGN.md §7
 
 
-def build_runner():
-    """Extract the model and build _build/model_run when stale. Returns (ok, log)."""
-    ex = BUILD / "extract"
+def build_runner(tag=""):
+    """Extract Model/Shell<tag>.v (via Extract/Extract<tag>.v) and build _build/model_run<tag>
+    when stale. Returns (ok, log)."""
+    ex = BUILD / ("extract" + tag)
     ex.mkdir(parents=True, exist_ok=True)
-    shell_vo = COQ / "theories" / "Model" / "Shell.vo"
-    runner = BUILD / "model_run"
+    shell_vo = COQ / "theories" / "Model" / f"Shell{tag}.vo"
+    runner = BUILD / ("model_run" + tag)
     if not shell_vo.exists():
-        return False, "Model/Shell.vo missing"
+        return False, f"Model/Shell{tag}.vo missing"
     stamp = ex / "stamp"
     key = hashlib.sha256(shell_vo.read_bytes() + (COQ / "ocaml" / "driver.ml").read_bytes()).hexdigest()
     if runner.exists() and stamp.exists() and stamp.read_text() == key:
         return True, "runner up to date"
     proc = subprocess.run(
         ["timeout", "600", "coqc", "-Q", str(COQ / "theories"), "PMS", "-w", "none",
-         str(COQ / "theories" / "Extract" / "Extract.v")],
+         str(COQ / "theories" / "Extract" / f"Extract{tag}.v")],
         cwd=ex, stdout=subprocess.PIPE, stderr=subprocess.STDOUT, text=True,
     )
     if proc.returncode != 0:
         return False, proc.stdout
     shutil.copy(COQ / "ocaml" / "driver.ml", ex / "driver.ml")
-    tmp = BUILD / ("model_run.tmp%d" % os.getpid())
+    tmp = BUILD / ("model_run%s.tmp%d" % (tag, os.getpid()))
     proc2 = subprocess.run(
         ["timeout", "600", "ocamlfind", "ocamlopt", "-w", "-a", "-unsafe", "-inline", "100",
          "model.mli", "model.ml", "driver.ml", "-o", str(tmp)],
@@ -203,8 +204,9 @@ def dec_cps(tok):
 class Model:
     """A model_run process. batch(lines) -> list of output lines (one per input)."""
 
-    def __init__(self):
-        self.path = BUILD / "model_run"
+    def __init__(self, tag=""):
+        self.tag = tag
+        self.path = BUILD / ("model_run" + tag)
 
     def batch(self, lines, timeout=3600):
         if not lines:
@@ -255,7 +257,7 @@ class Model:
         return result
 
 
-def coq_crosscheck(inputs_sessions, outputs_sessions, tag):
+def coq_crosscheck(inputs_sessions, outputs_sessions, tag, shell=""):
     """Evaluate the same sessions inside Coq with vm_compute and compare with the extracted
     runner's outputs. Returns (n_checked, ok, log)."""
     d = BUILD / "xcheck"
@@ -265,8 +267,8 @@ def coq_crosscheck(inputs_sessions, outputs_sessions, tag):
         return "[" + ";".join(str(b) for b in s.encode("ascii")) + "]"
 
     parts = [
-        "From Coq Require Import List NArith.\nFrom PMS Require Import Model.Shell.\n"
-        "Import ListNotations.\nOpen Scope N_scope.\n"
+        ("From Coq Require Import List NArith.\nFrom PMS Require Import Model.Shell%s.\n" % shell)
+        + "Import ListNotations.\nOpen Scope N_scope.\n"
     ]
     n = 0
     for k, (ins, outs) in enumerate(zip(inputs_sessions, outputs_sessions)):
